@@ -139,7 +139,9 @@ def report_mismatches(ctx, model, jobs, bad, relevant, fam_name, other_note=True
         sig = f"{fam_name}:{cat}:{last['name']}:{_normalise(text)}"
         ctx.report(sig, f'[{fam_name}] {text}  after: {" ; ".join(acts[-6:])}',
                    detail={'family': fam_name, 'behaviour': [a for a, _ in beh], 'failing_step': r['at'],
-                           'mismatches': r['mismatches'],
+                           'mismatches': r['mismatches'], 'steps': [[a, e] for a, e in beh],
+                           'model_rcs': model.rcs, 'model_lists': model.lists, 'name_mode': model.name_mode,
+                           'opts': {k: v for k, v in (byidx[idx][3] or {}).items() if not k.startswith('_') and k != 'relevant'},
                            'expected_state': beh[min(r['at'], len(beh) - 1)][1]})
 
 
@@ -262,3 +264,18 @@ def _account_cases(ctx, model, jobs, fam_name):
     if jobs:
         ctx.sample({'family': fam_name, 'behaviour': describe(model, jobs[0][2])})
         ctx.sample({'family': fam_name, 'behaviour': describe(model, jobs[-1][2])})
+
+
+def replay_file(ctx, detail, relevant):
+    """Re-execute the behaviour stored in a replay file (it carries the expected state after every step)."""
+    fam = FAMILIES[detail['family']]
+    model = Model(fam, rcs=detail.get('model_rcs'), lists=detail.get('model_lists'), name_mode=detail.get('name_mode', False))
+    beh = [(a, e) for a, e in detail['steps']]
+    r = replay(model, beh, opts=dict(detail.get('opts') or {}, relevant=sorted(relevant)) if relevant else {}, tag='replayfile')
+    ctx.traces += 1
+    ctx.case(json.dumps([a for a, _ in beh], sort_keys=True))
+    ctx.sample({'behaviour': describe(model, beh)})
+    if r['mismatches']:
+        report_mismatches(ctx, model, [('f', 0, beh, detail.get('opts') or {})], [(0, r)],
+                          relevant or {c for c, _ in r['mismatches']}, detail['family'])
+    return ctx.finish()
